@@ -314,6 +314,28 @@ func init() {
 						}
 					}
 				}
+				if !guarded {
+					// a branch taken for a set of named, non-void elements (pre, textarea, listing)
+					voidNames := map[string]bool{}
+					for _, v := range want {
+						voidNames[strings.ToLower(v)] = true
+					}
+					guarded = enteredOnlyUnder(site.Block(), func(cond ssa.Value, w bool) bool {
+						x, set, member, ok := inSetOnEdge(cond, w)
+						if !ok || !member || len(set) == 0 {
+							return false
+						}
+						if f := loadedField(x); f == nil || !fieldIs(f, "Data") {
+							return false
+						}
+						for _, s := range set {
+							if voidNames[s] {
+								return false
+							}
+						}
+						return true
+					})
+				}
 				c.check(guarded, fmt.Sprintf("formatNode: close tag#%d", n), p.instrPos(site), "not a void element", "a close tag is emitted without the void-element test")
 			}
 		},
@@ -427,7 +449,7 @@ func init() {
 				if !exists {
 					continue
 				}
-				keys := mapLiteralKeys(p, site.Common().Args[3])
+				keys := mapLiteralKeys(p, site.Common().Args[3], site)
 				var missing []string
 				for v := range vars {
 					if !keys[v] {
@@ -435,7 +457,7 @@ func init() {
 					}
 				}
 				sort.Strings(missing)
-				c.check(len(missing) == 0, "template "+name+" variables ⊆ data ("+shortName(site.Parent())+")", p.instrPos(site), fmt.Sprintf("%d variable(s) read, all provided", len(vars)), "the template reads "+strings.Join(missing, ", ")+" but the data literal does not provide it: it renders empty")
+				c.check(len(missing) == 0, "template "+name+" variables ⊆ data ("+shortName(site.Parent())+")", p.instrPos(site), fmt.Sprintf("%d variable(s) read, all provided on every path", len(vars)), "the template reads "+strings.Join(missing, ", ")+" but the data literal does not provide it on every path: the name falls through to the site configuration loaded from the content filesystem (lowest-precedence data), or renders empty")
 			}
 			var names []string
 			for n := range tplVars {
@@ -627,19 +649,43 @@ func shortAstType(t types.Type) string {
 }
 
 // mapLiteralKeys: the constant keys stored into the map value passed at a call (nil map → none).
-func mapLiteralKeys(p *Prog, v ssa.Value) map[string]bool {
+// mapLiteralKeys returns the constant keys a map value is certain to hold when it is used at `at`:
+// the map must come from map literals / make only, and a key counts when one of its updates lies
+// on every path from the function entry to `at` (updates made in another function count as they are).
+func mapLiteralKeys(p *Prog, v ssa.Value, at ssa.Instruction) map[string]bool {
 	keys := map[string]bool{}
+	first := true
 	for _, o := range p.origins(v, OriginOpts{}) {
 		mk, ok := o.(*ssa.MakeMap)
 		if !ok {
 			continue
 		}
+		here := map[string]map[ssa.Instruction]bool{}
 		if refs := mk.Referrers(); refs != nil {
 			for _, r := range *refs {
 				if mu, ok := r.(*ssa.MapUpdate); ok {
 					if k, ok := constString(unwrapIface(mu.Key)); ok {
-						keys[k] = true
+						if here[k] == nil {
+							here[k] = map[ssa.Instruction]bool{}
+						}
+						here[k][mu] = true
 					}
+				}
+			}
+		}
+		sure := map[string]bool{}
+		for k, ups := range here {
+			if at == nil || mk.Parent() != at.Parent() || mustPassBefore(at.Parent(), at, ups) {
+				sure[k] = true
+			}
+		}
+		// several literals can reach the use: only keys that all of them hold are certain
+		if first {
+			keys, first = sure, false
+		} else {
+			for k := range keys {
+				if !sure[k] {
+					delete(keys, k)
 				}
 			}
 		}
